@@ -98,6 +98,7 @@ type lockInfo struct {
 	in       map[*ssa.BasicBlock]lockState
 	before   map[ssa.Instruction]lockState
 	deferred map[string]bool // locks released by a deferred unlock
+	defers   []deferredUnlock
 	acquires []lockOp
 	atReturn map[*ssa.Return]lockState
 }
@@ -135,6 +136,9 @@ func (e *Engine) locks(fn *ssa.Function) *lockInfo {
 			case *ssa.Defer:
 				if op, ok := e.mutexOp(&x.Call); ok && !op.acquire {
 					li.deferred[op.key] = true
+					if record {
+						li.defers = append(li.defers, deferredUnlock{op.key, op.mode, x})
+					}
 				}
 			case *ssa.Return:
 				if record {
@@ -492,6 +496,12 @@ func reqNames(w *World, m map[*ssa.Function]int) string {
 }
 
 // pairRule: every lock acquired in fn is released on every return (directly or by a deferred unlock).
+type deferredUnlock struct {
+	key  string
+	mode int
+	in   *ssa.Defer
+}
+
 func pairRule(w *World, r *Report, e *Engine, rule string, fns []*ssa.Function) int {
 	n := 0
 	for _, fn := range fns {
@@ -502,9 +512,20 @@ func pairRule(w *World, r *Report, e *Engine, rule string, fns []*ssa.Function) 
 		for ret, st := range li.atReturn {
 			for k := range st {
 				n++
-				if li.deferred[k] {
+				// the deferred unlock counts when it has been registered on every path to this return, and
+				// releases the lock in the mode it is held in
+				registered := false
+				for _, d := range li.defers {
+					if d.key == k && d.mode == st[k] && (d.in.Block() == ret.Block() || d.in.Block().Dominates(ret.Block())) {
+						registered = true
+					}
+				}
+				switch {
+				case registered:
 					r.ok(rule, fn, "release of "+k, ret.Pos(), "deferred unlock registered")
-				} else {
+				case li.deferred[k]:
+					r.bad(rule, fn, "release of "+k, ret.Pos(), "the lock is still held at this return and the deferred unlock of the function is registered only later (or releases the other mode): this path leaves the lock held, and every later operation on the object blocks forever")
+				default:
 					r.bad(rule, fn, "release of "+k, ret.Pos(), "lock still held at this return and no deferred unlock")
 				}
 			}
